@@ -174,6 +174,13 @@ def xml_unmarshal(I, args, ins):
     ptr = ctx.force(tgt.val)
     if ptr is None:
         return ctx.new_error('xml', msg='non-pointer passed to Unmarshal')
+    while I.prog.kind(t) == 'ptr':      # the decoder allocates through pointers
+        inner = ctx.force(ctx.load(ptr))
+        t = I.prog.elem(t)
+        if inner is None:
+            inner = ctx.alloc(I.prog.zero(t), 'decoded')
+            ctx.store_(ptr, inner)
+        ptr = inner
     info = bytes_info(I, buf)
     ctx.event('xml.Unmarshal', t, info[0] if info else None)
     if info is not None and info[0] == 'marshal' and info[1] == t:
